@@ -194,6 +194,17 @@ fn hist_strategy() -> impl Strategy<Value = FHist> {
     // arbitrary short slots) and C17's order/checksum patterns of 1..3 long-name slots
     let region = prop_oneof![
         2 => c17_soup(),
+        // short-name-only entries as other writers / hand edits leave them: mixed-case ASCII bytes in the 8.3 field
+        2 => prop::collection::vec(("[a-zA-Z0-9]{1,8}", "[a-zA-Z]{0,3}", prop::sample::select(vec![0x20u8, 0x10, 0x00, 0x21])), 1..5).prop_map(|v| {
+            v.into_iter()
+                .map(|(b, e, attr)| {
+                    let mut short = [b' '; 11];
+                    short[..b.len()].copy_from_slice(b.as_bytes());
+                    short[8..8 + e.len()].copy_from_slice(e.as_bytes());
+                    c17::short_slot(&short, attr)
+                })
+                .collect::<Vec<_>>()
+        }),
         3 => c17::soup_strategy().prop_map(|c| c.slots),
         2 => (1usize..=3, any::<u64>()).prop_map(|(n, idx)| c17::pattern_case(n, idx % (58u64.pow(n as u32) * 12), false).slots),
     ];
@@ -224,7 +235,26 @@ fn hist_strategy() -> impl Strategy<Value = FHist> {
             }
             if let Some(s) = soup {
                 let pos = ops.len() / 2;
+                // look the raw short entries up by their 8.3 display name, as written and in the other case, and try
+                // to create over them: every build has to find (or not find) the same entries
+                let mut lookups = Vec::new();
+                for sl in s.iter().filter(|sl| sl.len() == 32 && sl[11] & 0x0F != 0x0F && sl[0] != 0 && sl[0] != 0xE5 && sl[..11].iter().all(|b| (0x21..0x7F).contains(b) || *b == b' ')).take(3) {
+                    let base = String::from_utf8_lossy(&sl[..8]).trim_end().to_string();
+                    let ext = String::from_utf8_lossy(&sl[8..11]).trim_end().to_string();
+                    if base.is_empty() || base.contains('/') || ext.contains('/') {
+                        continue;
+                    }
+                    let disp = if ext.is_empty() { base } else { format!("{}.{}", base, ext) };
+                    lookups.push(FOp::OpenFile(disp.clone()));
+                    lookups.push(FOp::OpenFile(disp.to_uppercase()));
+                    lookups.push(FOp::OpenDir(disp.to_lowercase()));
+                    lookups.push(FOp::CreateFile(disp.to_uppercase()));
+                    lookups.push(FOp::List(String::new()));
+                }
                 ops.insert(pos, FOp::RawDir(s));
+                for (i, l) in lookups.into_iter().enumerate() {
+                    ops.insert(pos + 1 + i, l);
+                }
             }
             FHist { class, kind: 0, ops }
         })
